@@ -22,13 +22,28 @@ Proof.
   destruct (Z.ltb_spec (Z.rem a b) 0) as [Hneg | Hpos]; Z.to_euclidean_division_equations; nia.
 Qed.
 
+(** the proofs of the comparison-only leaves do not depend on HOW the Go code writes the comparisons (operand order,
+    [>=] for [<=], intermediate variables, if-statements for boolean conversions): every integer comparison is split
+    by its specification and the residue closed by computation or [lia] — so that a harmless rewrite keeps checking *)
+Ltac cmp_cases :=
+  cbv beta zeta;
+  repeat (match goal with
+          | |- context [Z.geb ?a ?b] => rewrite (Z.geb_leb a b)
+          | |- context [Z.gtb ?a ?b] => rewrite (Z.gtb_ltb a b)
+          | |- context [Z.leb ?a ?b] => destruct (Z.leb_spec a b)
+          | |- context [Z.ltb ?a ?b] => destruct (Z.ltb_spec a b)
+          | |- context [Z.eqb ?a ?b] => destruct (Z.eqb_spec a b)
+          end; cbv beta iota zeta);
+  cbn [andb orb negb]; try reflexivity; try lia.
+
 Lemma gen_containsPoint_spec p e : gen_containsPoint p (ext_tuple e) = containsPoint p e.
-Proof. reflexivity. Qed.
+Proof.
+  unfold gen_containsPoint, containsPoint, ext_tuple. cbn [gx_minx gx_miny gx_maxx gx_maxy]. cmp_cases.
+Qed.
 
 Lemma gen_getInfiniteQuadrant_spec p c : gen_getInfiniteQuadrant p c = Z.of_nat (getInfiniteQuadrant p c).
 Proof.
-  unfold gen_getInfiniteQuadrant, getInfiniteQuadrant, gen_Bool2int.
-  destruct (fst c <=? fst p), (snd c <=? snd p); reflexivity.
+  unfold gen_getInfiniteQuadrant, getInfiniteQuadrant. cbv delta [gen_Bool2int gen_const_right gen_const_top]. cmp_cases.
 Qed.
 
 Definition lt4 (i : nat) : Prop := (i < 4)%nat.
